@@ -6,9 +6,17 @@
        claims nothing (log and head unchanged);
    (4) in every reachable state whoever is past that test (in particular at the claiming steps) loaded a signal
        word without the flag.
-   Not proved: that the flag is set when the last receiver's drop returns (needs the stream-registry invariant). *)
+   (5) C13_empty_list_flag_or_remover_on_its_way: in every reachable state in which the published stream list is
+       empty, the flag is set, or an agent that has removed a stream from the list is still between that removal and
+       its look at the list - and (C13_remover_sets_the_flag) such an agent stays on that path until it has looked
+       at the list and, finding it empty, set the flag.  So once the list is empty and every drop/unsubscribe call
+       has returned, the flag is set and, by (3), every later send is refused as Disconnected.
+   Not proved: that the list is empty once the last receiver handle is gone (every registered stream has a holder
+   or a remover; the converse - a held stream is registered - is Props/C10.v); that a sender blocked or parked at
+   that moment is woken (C08/C14). *)
 From Coq Require Import NArith List Bool.
-Require Import MQ.Arith64 MQ.Types MQ.State MQ.Model MQ.Exec MQ.Reach MQ.Ctl MQ.SigStep MQ.InvSig.
+Require Import MQ.Arith64 MQ.Types MQ.State MQ.Model MQ.Exec MQ.Reach MQ.Ctl MQ.RecvDefs MQ.InvReg MQ.SigStep MQ.InvSig MQ.SigStepB MQ.InvEmpty.
+Import ListNotations.
 Open Scope N_scope.
 
 Theorem C13_no_reader_sticky : forall c s l s',
@@ -51,3 +59,27 @@ Example C13_witness :
   exists A, get (ags (reach_by c false (Start 1 CDrop :: repeat (Step 1) 23 ++ Start 0 (CTrySend 7) :: Step 0 :: nil))) 0 = Some A
             /\ r_res (a_r A) = RDisc 0 /\ a_pc A = Idle.
 Proof. vm_compute. split; [reflexivity|]. eexists. repeat split. Qed.
+
+Theorem C13_empty_list_flag_or_remover_on_its_way : forall c fut s,
+  mreach c fut s -> streams (sh s) = [] ->
+  no_reader (sh s) = true \/ exists a A, get (ags s) a = Some A /\ dph A = true.
+Proof. exact empty_mreach. Qed.
+Check C13_empty_list_flag_or_remover_on_its_way : forall c fut s,
+  mreach c fut s -> streams (sh s) = [] ->
+  no_reader (sh s) = true \/ exists a A, get (ags s) a = Some A /\ dph A = true.
+Print Assumptions C13_empty_list_flag_or_remover_on_its_way.
+
+Theorem C13_remover_sets_the_flag : forall c me A S o,
+  micro c me A S = Some o -> ctl_ok A = true -> dph A = true ->
+  dph (o_a o) = true \/ (a_pc A = D6 /\ no_reader (o_s o) = true) \/ (a_pc A = D5 /\ ggroup S (cur S) <> []).
+Proof. exact micro_dph. Qed.
+Check C13_remover_sets_the_flag : forall c me A S o,
+  micro c me A S = Some o -> ctl_ok A = true -> dph A = true ->
+  dph (o_a o) = true \/ (a_pc A = D6 /\ no_reader (o_s o) = true) \/ (a_pc A = D5 /\ ggroup S (cur S) <> []).
+Print Assumptions C13_remover_sets_the_flag.
+
+Example C13_empty_witness :
+  let c := mk_cfg MPMC 4 WBusy in
+  let s := reach_by c false (Start 1 CDrop :: repeat (Step 1) 23) in
+  streams (sh s) = [] /\ no_reader (sh s) = true.
+Proof. vm_compute. split; reflexivity. Qed.
